@@ -1805,6 +1805,76 @@ pub fn tree_main(args: &[String]) {
     }
 }
 
+
+/// C15: "time grows linearly with objects plus adoptions" also in the number of HANDLES: a two-object
+/// cycle a <-> b, `h` extra outside handles to a, dropped one by one (each drop is non-final and traces
+/// the two objects), then the last one (collects). Work per drop must not depend on `h`.
+fn fan(h: usize) -> String {
+    unsafe { crate::QUARANTINE = false };
+    reset_world(0);
+    let w_ = w();
+    w_.alive = vec![true; 2];
+    w_.next_id = 2;
+    w_.shadow = Vec::new();
+    w_.fast = true;
+    let mk = |i: usize| Rc::new(Node { id: i as u32, script: NO_SCRIPT, slots: UnsafeCell::new(empty_slots()) });
+    let a = mk(0);
+    let b = mk(1);
+    unsafe {
+        let hb = Rc::clone(&b);
+        shim::adopt(&a, &hb);
+        (*a.slots.get())[0] = Slot::Strong(hb, 1);
+        let ha = Rc::clone(&a);
+        shim::adopt(&b, &ha);
+        (*b.slots.get())[0] = Slot::Strong(ha, 0);
+    }
+    drop(b);
+    let weak0 = Rc::downgrade(&a);
+    let extra: Vec<Rc<Node>> = (0..h).map(|_| Rc::clone(&a)).collect();
+    let w_ = w();
+    w_.traces = 0;
+    w_.pops = 0;
+    w_.visits = 0;
+    w_.dtor_log = Vec::with_capacity(4);
+    let marker = 0u8;
+    w_.sp_base = &marker as *const u8 as usize;
+    w_.sp_min = w_.sp_base;
+    let t0 = std::time::Instant::now();
+    for x in extra {
+        drop(x);
+    }
+    let mid = w().dtor_log.len();
+    drop(a);
+    let dt = t0.elapsed();
+    let w_ = w();
+    format!(
+        "fan n={} destroyed_early={} destroyed={} traces={} pops={} visits={} depth={} upgrade={} us={}",
+        h,
+        mid,
+        w_.dtor_log.len(),
+        w_.traces,
+        w_.pops,
+        w_.visits,
+        w_.sp_base.saturating_sub(w_.sp_min),
+        weak0.upgrade().is_some(),
+        dt.as_micros()
+    )
+}
+
+pub fn fan_main(args: &[String]) {
+    shim::install(hook);
+    let n: usize = args[2].parse().unwrap();
+    let stack: usize = args.get(3).and_then(|s| s.parse().ok()).unwrap_or(128 * 1024);
+    let h = std::thread::Builder::new().stack_size(stack).spawn(move || fan(n)).unwrap();
+    match h.join() {
+        Ok(s) => println!("{}", s),
+        Err(_) => {
+            println!("fan n={} FAILED", n);
+            std::process::exit(3);
+        }
+    }
+}
+
 // ----------------------------------------------------------------------- glue
 /// The API surface that merely delegates to `T` or to pointer identity
 /// (comparison, hashing, formatting, conversions, Weak raw round trips): not
